@@ -299,5 +299,463 @@ theorem applyParts_hbit_raw (h : Heap) (off len start e : Nat)
               repeat' split
               all_goals first | rfl | omega | (rw [hF1' (by omega)]) | (rw [hF2' (by omega)]) | (exfalso; omega)
 
+theorem except_bind_ite {ε α β} (c : Prop) [Decidable c] (e : ε) (v : α) (k : α → Except ε β) :
+    Except.bind (if c then Except.error e else Except.ok v) k = if c then Except.error e else k v := by
+  split <;> rfl
+
+theorem except_bind_ok {ε α β} (v : α) (k : α → Except ε β) : Except.bind (Except.ok v) k = k v := rfl
+theorem except_bind_error {ε α β} (e : ε) (k : α → Except ε β) : Except.bind (Except.error e : Except ε α) k = .error e := rfl
+
+def normHi (n : Int) (hi : Option Int) : Int :=
+  match hi with
+  | none => n
+  | some e => if e < 0 then e + n else e
+
+theorem ite_ov (x : Int) : (if (x % 8 == 0) = true then (0 : Int) else 1) = if x % 8 = 0 then 0 else 1 := by
+  simp
+
+theorem slice_spec (h : Heap) (p : PBA) (hwf : WF h p) (lo hi : Option Int) (q : PBA)
+    (hq : slice p lo hi none = .ok q) (L E : Nat) (hL : lo.getD 0 = (L : Int))
+    (hE : normHi p.n hi = (E : Int)) (hLE : L ≤ E) :
+    WF h q ∧ q.A = p.A + L ∧ q.n = E - L ∧ q.own = false := by
+  obtain ⟨off, len, start, stop, own⟩ := p
+  obtain ⟨h1, h2, h3, h4, h5⟩ := hwf
+  simp only at h1 h2 h3 h4 h5
+  obtain ⟨e, rfl⟩ : ∃ e : Nat, stop = e := ⟨stop.toNat, by omega⟩
+  simp only [PBA.n, PBA.A]
+  have hcast : (((e : Int) - (start : Int)).toNat : Int) = (e : Int) - start := by omega
+  cases lo <;> cases hi <;>
+    simp only [slice, initData, checkStart, bind, except_bind_ite, except_bind_ok, except_bind_error,
+      pure, Except.pure, throw, throwThe,
+      MonadExceptOf.throw, normHi, Option.getD_none, Option.getD_some, Bool.or_eq_true, decide_eq_true_eq] at hq hE hL <;>
+    simp only [PBA.n, hcast] at hE <;>
+    (try generalize hsz : PBA.size ⟨off, len, start, (e : Int), own⟩ = sz at hq) <;>
+    (try (have hsz' : sz = (e : Int) - start := by rw [← hsz]; rfl)) <;>
+    (try subst hsz')
+  · -- [:]
+    repeat' (split at hq)
+    all_goals (first | cases hq | skip)
+    refine ⟨⟨?_, ?_, ?_, ?_, ?_⟩, ?_, ?_, ?_⟩ <;> (try simp only []) <;> omega
+  · -- [:hi]
+    simp only [hE, ite_ov] at hq
+    generalize hov : (if ((E : Int) - 0 + (start : Int)) % 8 = 0 then (0 : Int) else 1) = ov at hq
+    have hov' : (((E : Int) + start) % 8 = 0 → ov = 0) ∧ (((E : Int) + start) % 8 ≠ 0 → ov = 1) := by
+      subst hov; constructor <;> intro hh <;> simp [hh]
+    repeat' (split at hq)
+    all_goals (first | cases hq | skip)
+    refine ⟨⟨?_, ?_, ?_, ?_, ?_⟩, ?_, ?_, ?_⟩ <;> (try simp only []) <;> omega
+  · -- [lo:]
+    subst hL
+    repeat' (split at hq)
+    all_goals (first | cases hq | skip)
+    refine ⟨⟨?_, ?_, ?_, ?_, ?_⟩, ?_, ?_, ?_⟩ <;> (try simp only []) <;> omega
+  · -- [lo:hi]
+    subst hL
+    simp only [hE, ite_ov] at hq
+    generalize hov : (if ((E : Int) - L + ((L : Int) + (start : Int)) % 8) % 8 = 0 then (0 : Int) else 1) = ov at hq
+    have hov' : (((E : Int) + start) % 8 = 0 → ov = 0) ∧ (((E : Int) + start) % 8 ≠ 0 → ov = 1) := by
+      subst hov; constructor <;> intro hh
+      · rw [if_pos (by omega)]
+      · rw [if_neg (by omega)]
+    repeat' (split at hq)
+    all_goals (first | cases hq | skip)
+    refine ⟨⟨?_, ?_, ?_, ?_, ?_⟩, ?_, ?_, ?_⟩ <;> (try simp only []) <;> omega
+
+/-- The exact acceptance condition of `self[lo:hi]` on a well-formed view with bit offset `s`
+    and `n` elements. -/
+def sliceAccepts (s : Nat) (n : Int) (lo hi : Option Int) : Prop :=
+  (0 ≤ lo.getD 0 ∧ lo.getD 0 ≤ n) ∧
+  match hi with
+  | none => True
+  | some _ =>
+    normHi n hi ≤ n ∧ (lo.getD 0 + s) % 8 ≤ normHi n hi ∧
+      (lo.getD 0 + s) / 8 * 8 ≤ normHi n hi + s + 7
+
+theorem slice_ok_iff (h : Heap) (p : PBA) (hwf : WF h p) (lo hi : Option Int) :
+    (∃ q, slice p lo hi none = .ok q) ↔ sliceAccepts p.start p.n lo hi := by
+  obtain ⟨off, len, start, stop, own⟩ := p
+  obtain ⟨h1, h2, h3, h4, h5⟩ := hwf
+  simp only at h1 h2 h3 h4 h5
+  obtain ⟨e, rfl⟩ : ∃ e : Nat, stop = e := ⟨stop.toNat, by omega⟩
+  have hcast : (((e : Int) - (start : Int)).toNat : Int) = (e : Int) - start := by omega
+  cases lo <;> cases hi <;>
+    simp only [slice, initData, checkStart, bind, except_bind_ite, except_bind_ok, except_bind_error,
+      pure, Except.pure, throw, throwThe, sliceAccepts,
+      MonadExceptOf.throw, normHi, Option.getD_none, Option.getD_some, Bool.or_eq_true, decide_eq_true_eq] <;>
+    simp only [PBA.n, hcast] <;>
+    (try generalize hsz : PBA.size ⟨off, len, start, (e : Int), own⟩ = sz) <;>
+    (try (have hsz' : sz = (e : Int) - start := by rw [← hsz]; rfl)) <;>
+    (try subst hsz')
+  · repeat' split
+    all_goals (constructor
+               · rintro ⟨q, hq⟩; first | (cases hq; done) | ((repeat' apply And.intro) <;> first | trivial | omega)
+               · intro hC; first | exact ⟨_, rfl⟩ | (exfalso; omega))
+  · rename_i ke
+    generalize (if ke < 0 then ke + ((e : Int) - start) else ke) = E'
+    simp only [ite_ov]
+    generalize hov : (if (E' - 0 + (start : Int)) % 8 = 0 then (0 : Int) else 1) = ov
+    have hov' : ((E' + start) % 8 = 0 → ov = 0) ∧ ((E' + start) % 8 ≠ 0 → ov = 1) := by
+      subst hov; constructor <;> intro hh
+      · rw [if_pos (by omega)]
+      · rw [if_neg (by omega)]
+    repeat' split
+    all_goals (constructor
+               · rintro ⟨q, hq⟩; first | (cases hq; done) | ((repeat' apply And.intro) <;> first | trivial | omega)
+               · intro hC; first | exact ⟨_, rfl⟩ | (exfalso; omega))
+  · repeat' split
+    all_goals (constructor
+               · rintro ⟨q, hq⟩; first | (cases hq; done) | ((repeat' apply And.intro) <;> first | trivial | omega)
+               · intro hC; first | exact ⟨_, rfl⟩ | (exfalso; omega))
+  · rename_i ks ke
+    generalize (if ke < 0 then ke + ((e : Int) - start) else ke) = E'
+    simp only [ite_ov]
+    generalize hov : (if (E' - ks + (ks + (start : Int)) % 8) % 8 = 0 then (0 : Int) else 1) = ov
+    have hov' : ((E' + start) % 8 = 0 → ov = 0) ∧ ((E' + start) % 8 ≠ 0 → ov = 1) := by
+      subst hov; constructor <;> intro hh
+      · rw [if_pos (by omega)]
+      · rw [if_neg (by omega)]
+    repeat' split
+    all_goals (constructor
+               · rintro ⟨q, hq⟩; first | (cases hq; done) | ((repeat' apply And.intro) <;> first | trivial | omega)
+               · intro hC; first | exact ⟨_, rfl⟩ | (exfalso; omega))
+
+
+theorem fml_ok (rd : Nat → Byte) (len start e : Nat) (mask : Bool)
+    (h2 : start ≤ e) (h3 : 8 * len ≤ e + 7) (h4 : e ≤ 8 * len) :
+    ∃ f, fml rd len start (e : Int) mask = .ok f := by
+  unfold fml
+  simp only [Bool.and_eq_true, beq_iff_eq]
+  repeat' split
+  all_goals first | exact ⟨_, rfl⟩ | (exfalso; omega)
+
+theorem fml_false_shape (rd rd' : Nat → Byte) (len start : Nat) (stop : Int) (f : FML)
+    (hf : fml rd len start stop false = .ok f) :
+    fml rd' len start stop false = .ok
+      ⟨⟨f.first.arr.map (fun _ => unpack (rd' 0)), f.first.lo, f.first.hi⟩, f.mid,
+       ⟨f.last.arr.map (fun _ => unpack (rd' (len - 1))), f.last.lo, f.last.hi⟩⟩ := by
+  unfold fml at hf ⊢
+  simp only [Bool.and_eq_true, beq_iff_eq, Bool.false_eq_true, if_false] at hf ⊢
+  repeat' split at hf
+  all_goals (cases hf <;> simp_all [Part.absent])
+
+theorem fml_false_arr (rd : Nat → Byte) (len start : Nat) (stop : Int) (f : FML)
+    (hf : fml rd len start stop false = .ok f) :
+    (∀ a, f.first.arr = some a → a = unpack (rd 0)) ∧
+    (∀ a, f.last.arr = some a → a = unpack (rd (len - 1))) := by
+  unfold fml at hf
+  simp only [Bool.and_eq_true, beq_iff_eq, Bool.false_eq_true, if_false] at hf
+  repeat' split at hf
+  all_goals (cases hf <;> simp_all [Part.absent])
+
+theorem applyParts_size (h : Heap) (off len : Nat) (f : FML) (a b : Nat → Bool → Bool) (c) :
+    (applyParts h off len f a b c).size = h.size := by
+  unfold applyParts
+  repeat' split
+  all_goals simp [wr_size, mapRange_size]
+
+theorem ff_getElem (t : Nat) (ht : t < 8) : (255#8 : BitVec 8)[t] = true := by
+  have h : ∀ t : Fin 8, (255#8 : BitVec 8).getLsbD t.val = true := by decide
+  rw [← BitVec.getLsbD_eq_getElem]; exact h ⟨t, ht⟩
+
+theorem Op_byte_getLsbD (op : Op) (x : Byte) (o : Bool) (t : Nat) (ht : t < 8) :
+    (op.byte x (truefalse o)).getLsbD t = op.bool (x.getLsbD t) o := by
+  have h1 : truefalse true = BitVec.allOnes 8 := by decide
+  have h0 : truefalse false = 0#8 := by decide
+  cases op <;> cases o <;> simp [Op.byte, Op.bool, h1, h0, ht, ff_getElem]
+
+theorem Op_byte_getLsbD' (op : Op) (x y : Byte) (t : Nat) (ht : t < 8) :
+    (op.byte x y).getLsbD t = op.bool (x.getLsbD t) (y.getLsbD t) := by
+  cases op <;> simp [Op.byte, Op.bool, ht]
+
+
+theorem WF.stop_eq {h : Heap} {p : PBA} (hwf : WF h p) : p.stop = ((p.start + p.n : Nat) : Int) := by
+  obtain ⟨h1, h2, h3, h4, h5⟩ := hwf
+  simp only [PBA.n]; omega
+
+/-- What a bulk in-place method does, at bit level: the heap keeps its size, the bits of the
+    view `p` are rewritten with `F` (absolute bit position, old value), all other bits are kept. -/
+structure Rewrites (h h' : Heap) (p : PBA) (F : Nat → Bool → Bool) : Prop where
+  size : h'.size = h.size
+  bit : ∀ k, hbit h' k = if p.A ≤ k ∧ k < p.A + p.n then F k (hbit h k) else hbit h k
+
+theorem applyParts_rewrites (h : Heap) (p : PBA) (hwf : WF h p) (f : FML) (hf : p.fml h false = .ok f)
+    (firstF lastF : Nat → Bool → Bool) (midF : Heap → Nat → Byte → Byte) (F : Nat → Bool → Bool)
+    (hfirst : ∀ t x, t < 8 → firstF t x = F (8 * p.off + t) x)
+    (hlast : ∀ t x, t < 8 → lastF t x = F (8 * (p.off + p.len - 1) + t) x)
+    (hmid : ∀ hc : Heap, hc.size = h.size → (∀ j, (j < p.off ∨ p.off + p.len ≤ j) → rdB hc j = rdB h j) →
+      ∀ a b, f.mid = some (a, b) → ∀ i x t, i < b - a → t < 8 →
+        (midF hc i x).getLsbD t = F (8 * (p.off + a + i) + t) (x.getLsbD t)) :
+    Rewrites h (applyParts h p.off p.len f firstF lastF midF) p F := by
+  have hs := hwf.stop_eq
+  obtain ⟨h1, h2, h3, h4, h5⟩ := hwf
+  refine ⟨applyParts_size _ _ _ _ _ _ _, fun k => ?_⟩
+  unfold PBA.fml at hf
+  rw [hs] at hf
+  have := applyParts_hbit_raw h p.off p.len p.start (p.start + p.n) h1 (by omega) (by omega) (by omega) h5 f hf
+    firstF lastF midF F hfirst hlast hmid k
+  rw [this]
+  simp only [PBA.A, Nat.add_assoc]
+
+theorem PBA.fml_ok {h : Heap} {p : PBA} (hwf : WF h p) (mask : Bool) : ∃ f, p.fml h mask = .ok f := by
+  have hs := hwf.stop_eq
+  obtain ⟨h1, h2, h3, h4, h5⟩ := hwf
+  unfold PBA.fml
+  rw [hs]
+  exact Packed.fml_ok _ _ _ _ _ (by omega) (by omega) (by omega)
+
+theorem opBool_spec (h : Heap) (p : PBA) (hwf : WF h p) (op : Op) (o : Bool) :
+    ∃ h', opBool h p op o = .ok h' ∧ Rewrites h h' p (fun _ x => op.bool x o) := by
+  obtain ⟨f, hf⟩ := PBA.fml_ok hwf false
+  have e : opBool h p op o = .ok (applyParts h p.off p.len f (fun _ x => op.bool x o)
+      (fun _ x => op.bool x o) (fun _ _ x => op.byte x (truefalse o))) := by
+    simp only [opBool, hf, bind, Except.bind, pure, Except.pure]
+  refine ⟨_, e, ?_⟩
+  exact applyParts_rewrites h p hwf f hf _ _ _ _ (fun _ _ _ => rfl) (fun _ _ _ => rfl)
+    (fun _ _ _ _ _ _ _ x t _ ht => Op_byte_getLsbD op x o t ht)
+
+/-- `np.asarray` of a view after a rewrite of that same view. -/
+theorem toBools_rewrites {h h' : Heap} {p : PBA} {F} (hwf : WF h p) (R : Rewrites h h' p F) :
+    WF h' p ∧ toBools h' p = (List.range p.n).map fun i => F (p.A + i) (hbit h (p.A + i)) := by
+  have hwf' : WF h' p := by
+    obtain ⟨h1, h2, h3, h4, h5⟩ := hwf
+    exact ⟨h1, h2, h3, h4, by rw [R.size]; exact h5⟩
+  refine ⟨hwf', ?_⟩
+  rw [toBools_eq h' p hwf']
+  apply List.map_congr_left
+  intro i hi
+  rw [R.bit, if_pos ⟨by omega, by have := List.mem_range.mp hi; omega⟩]
+
+theorem fml_bounds (rd : Nat → Byte) (len start : Nat) (stop : Int) (mask : Bool) (f : FML)
+    (hf : fml rd len start stop mask = .ok f) :
+    (∀ a b, f.mid = some (a, b) → b ≤ len) ∧ (f.first.arr.isSome → 1 ≤ len) ∧ (f.last.arr.isSome → 1 ≤ len) := by
+  unfold fml at hf
+  simp only [Bool.and_eq_true, beq_iff_eq] at hf
+  repeat' split at hf
+  all_goals (cases hf <;> simp_all [Part.absent] <;> omega)
+
+theorem applyParts_congr (h : Heap) (off len : Nat) (f : FML) (a a' b b' : Nat → Bool → Bool) (c)
+    (ha : f.first.arr.isSome → a = a') (hb : f.last.arr.isSome → b = b') :
+    applyParts h off len f a b c = applyParts h off len f a' b' c := by
+  unfold applyParts
+  cases h1 : f.first.arr <;> cases h2 : f.last.arr <;> simp_all
+
+theorem applyParts_rewrites' (h : Heap) (p : PBA) (hwf : WF h p) (f : FML) (hf : p.fml h false = .ok f)
+    (firstF lastF : Nat → Bool → Bool) (midF : Heap → Nat → Byte → Byte) (F : Nat → Bool → Bool)
+    (hfirst : f.first.arr.isSome → ∀ t x, t < 8 → firstF t x = F (8 * p.off + t) x)
+    (hlast : f.last.arr.isSome → ∀ t x, t < 8 → lastF t x = F (8 * (p.off + p.len - 1) + t) x)
+    (hmid : ∀ hc : Heap, hc.size = h.size → (∀ j, (j < p.off ∨ p.off + p.len ≤ j) → rdB hc j = rdB h j) →
+      ∀ a b, f.mid = some (a, b) → ∀ i x t, i < b - a → t < 8 →
+        (midF hc i x).getLsbD t = F (8 * (p.off + a + i) + t) (x.getLsbD t)) :
+    Rewrites h (applyParts h p.off p.len f firstF lastF midF) p F := by
+  let firstF' : Nat → Bool → Bool := fun t x => if t < 8 then firstF t x else F (8 * p.off + t) x
+  let lastF' : Nat → Bool → Bool := fun t x => if t < 8 then lastF t x else F (8 * (p.off + p.len - 1) + t) x
+  by_cases c1 : f.first.arr.isSome <;> by_cases c2 : f.last.arr.isSome
+  · exact applyParts_rewrites h p hwf f hf _ _ _ F (hfirst c1) (hlast c2) hmid
+  · rw [applyParts_congr h p.off p.len f firstF firstF lastF (fun t x => F (8 * (p.off + p.len - 1) + t) x) midF
+      (fun _ => rfl) (fun hh => absurd hh c2)]
+    exact applyParts_rewrites h p hwf f hf _ _ _ F (hfirst c1) (fun _ _ _ => rfl) hmid
+  · rw [applyParts_congr h p.off p.len f firstF (fun t x => F (8 * p.off + t) x) lastF lastF midF
+      (fun hh => absurd hh c1) (fun _ => rfl)]
+    exact applyParts_rewrites h p hwf f hf _ _ _ F (fun _ _ _ => rfl) (hlast c2) hmid
+  · rw [applyParts_congr h p.off p.len f firstF (fun t x => F (8 * p.off + t) x) lastF
+      (fun t x => F (8 * (p.off + p.len - 1) + t) x) midF (fun hh => absurd hh c1) (fun hh => absurd hh c2)]
+    exact applyParts_rewrites h p hwf f hf _ _ _ F (fun _ _ _ => rfl) (fun _ _ _ => rfl) hmid
+
+/-- When the operand's parts have the shape of the target's parts, `combineParts` does not raise. -/
+theorem combineParts_eq (h : Heap) (p : PBA) (f g : FML) (rdo : Heap → Nat → Byte) (bitF) (byteF)
+    (hmid : g.mid = f.mid) (h1 : f.first.arr.isSome → g.first.arr.isSome)
+    (h2 : f.last.arr.isSome → g.last.arr.isSome) :
+    combineParts h p f g rdo bitF byteF = .ok (applyParts h p.off p.len f
+      (fun t x => bitF x ((g.first.arr.getD []).getD t false))
+      (fun t x => bitF x ((g.last.arr.getD []).getD t false))
+      (fun hc i x => byteF x (rdo hc ((match f.mid with | some (a, _) => a | none => 0) + i)))) := by
+  unfold combineParts
+  rw [hmid]
+  cases hf1 : f.first.arr <;> cases hf2 : f.last.arr <;> cases hg1 : g.first.arr <;> cases hg2 : g.last.arr <;>
+    simp_all [bind, Except.bind, pure, Except.pure] <;>
+    (cases hm : f.mid <;> simp)
+
+theorem hbit_byte (h : Heap) (j t : Nat) (ht : t < 8) : hbit h (8 * j + t) = (rdB h j).getLsbD t := by
+  have h1 : (8 * j + t) / 8 = j := by omega
+  have h2 : (8 * j + t) % 8 = t := by omega
+  simp only [hbit, h1, h2]
+
+/-- byte ranges of two views do not overlap -/
+def Disjoint (p q : PBA) : Prop := p.off + p.len ≤ q.off ∨ q.off + q.len ≤ p.off
+
+/-- the bit of operand `q` that lines up with absolute bit `k` of the aligned target `p` -/
+def opnd (h : Heap) (p q : PBA) (k : Nat) : Bool := hbit h (k + 8 * q.off - 8 * p.off)
+
+theorem combinePBA_spec (h : Heap) (p q : PBA) (hp : WF h p) (hq : WF h q)
+    (hs : q.start = p.start) (he : q.stop = p.stop) (hd : Disjoint p q)
+    (bitF : Bool → Bool → Bool) (byteF : Byte → Byte → Byte)
+    (hbb : ∀ x y t, t < 8 → (byteF x y).getLsbD t = bitF (x.getLsbD t) (y.getLsbD t)) :
+    ∃ f g h', p.fml h false = .ok f ∧ q.fml h false = .ok g ∧
+      combineParts h p f g (fun hc i => rdB hc (q.off + i)) bitF byteF = .ok h' ∧
+      Rewrites h h' p (fun k x => bitF x (opnd h p q k)) := by
+  obtain ⟨f, hf⟩ := PBA.fml_ok hp false
+  have hlen : q.len = p.len := by
+    obtain ⟨_, _, a3, a4, _⟩ := hp; obtain ⟨_, _, b3, b4, _⟩ := hq; omega
+  have hg := fml_false_shape _ (fun i => rdB h (q.off + i)) _ _ _ f hf
+  have hb := fml_bounds _ _ _ _ _ f hf
+  have hgq : q.fml h false = fml (fun i => rdB h (q.off + i)) p.len p.start p.stop false := by
+    unfold PBA.fml; rw [hs, he, hlen]
+  rw [hg] at hgq
+  have e := combineParts_eq h p f
+    ⟨⟨f.first.arr.map (fun _ => unpack (rdB h (q.off + 0))), f.first.lo, f.first.hi⟩, f.mid,
+     ⟨f.last.arr.map (fun _ => unpack (rdB h (q.off + (p.len - 1)))), f.last.lo, f.last.hi⟩⟩
+    (fun hc i => rdB hc (q.off + i)) bitF byteF rfl (by simp) (by simp)
+  refine ⟨f, _, _, hf, hgq, e, ?_⟩
+  apply applyParts_rewrites' h p hp f hf
+  · intro c t x ht
+    obtain ⟨a, ha⟩ := Option.isSome_iff_exists.mp c
+    simp only [ha, Option.map_some, Option.getD_some, unpack_getD, opnd]
+    have : 8 * p.off + t + 8 * q.off - 8 * p.off = 8 * (q.off + 0) + t := by omega
+    rw [this, hbit_byte _ _ _ ht]
+  · intro c t x ht
+    obtain ⟨a, ha⟩ := Option.isSome_iff_exists.mp c
+    have := hb.2.2 c
+    simp only [ha, Option.map_some, Option.getD_some, unpack_getD, opnd]
+    have : 8 * (p.off + p.len - 1) + t + 8 * q.off - 8 * p.off = 8 * (q.off + (p.len - 1)) + t := by omega
+    rw [this, hbit_byte _ _ _ ht]
+  · intro hc hsz hfr a b hm i x t hi ht
+    have hb1 := hb.1 a b hm
+    simp only [hm, hbb _ _ _ ht, opnd]
+    have : 8 * (p.off + a + i) + t + 8 * q.off - 8 * p.off = 8 * (q.off + (a + i)) + t := by omega
+    rw [this, hbit_byte _ _ _ ht, hfr]
+    unfold Disjoint at hd
+    omega
+
+theorem opPBA_spec (h : Heap) (p q : PBA) (hp : WF h p) (hq : WF h q)
+    (hs : q.start = p.start) (he : q.stop = p.stop) (hd : Disjoint p q) (op : Op) :
+    ∃ h', opPBA h p q op = .ok h' ∧ Rewrites h h' p (fun k x => op.bool x (opnd h p q k)) := by
+  obtain ⟨f, g, h', hf, hg, e, R⟩ := combinePBA_spec h p q hp hq hs he hd op.bool op.byte
+    (fun x y t ht => Op_byte_getLsbD' op x y t ht)
+  exact ⟨h', by simp only [opPBA, hf, hg, bind, Except.bind]; exact e, R⟩
+
+theorem WF.pyLen {h : Heap} {p : PBA} (hwf : WF h p) : p.pyLen = .ok p.n := by
+  obtain ⟨h1, h2, h3, h4, h5⟩ := hwf
+  unfold PBA.pyLen
+  have : ¬ p.size < 0 := by simp only [PBA.size]; omega
+  rw [if_neg this]; rfl
+
+theorem iopPBA_spec (h : Heap) (p q : PBA) (hp : WF h p) (hq : WF h q)
+    (hs : q.start = p.start) (he : q.stop = p.stop) (hd : Disjoint p q) (op : Op) :
+    ∃ h', iopPBA h p q op = .ok h' ∧ Rewrites h h' p (fun k x => op.bool x (opnd h p q k)) := by
+  obtain ⟨h', e, R⟩ := opPBA_spec h p q hp hq hs he hd op
+  refine ⟨h', ?_, R⟩
+  have : q.n = p.n := by simp only [PBA.n, hs, he]
+  simp [iopPBA, hp.pyLen, hq.pyLen, this, hs, e, bind, Except.bind]
+
+theorem Rewrites.refl_empty (h : Heap) (p : PBA) (F) (hn : p.n = 0) : Rewrites h h p F :=
+  ⟨rfl, fun k => by rw [if_neg (by omega)]⟩
+
+theorem Rewrites.congr {h h' : Heap} {p : PBA} {F F'} (R : Rewrites h h' p F)
+    (hF : ∀ k x, p.A ≤ k → k < p.A + p.n → F k x = F' k x) : Rewrites h h' p F' :=
+  ⟨R.size, fun k => by
+    rw [R.bit]
+    by_cases c : p.A ≤ k ∧ k < p.A + p.n
+    · rw [if_pos c, if_pos c, hF k _ c.1 c.2]
+    · rw [if_neg c, if_neg c]⟩
+
+theorem truefalse_getLsbD (v : Bool) (t : Nat) (ht : t < 8) : (truefalse v).getLsbD t = v := by
+  cases v
+  · simp [truefalse]
+  · simp only [truefalse, if_true, BitVec.getLsbD_eq_getElem ht]; exact ff_getElem t ht
+
+theorem setSliceBool_spec (h : Heap) (p : PBA) (lo hi : Option Int) (t : PBA)
+    (ht : slice p lo hi = .ok t) (hwt : WF h t) (v : Bool) :
+    ∃ h', setSliceBool h p lo hi v = .ok h' ∧ Rewrites h h' t (fun _ _ => v) := by
+  by_cases hn : t.n = 0
+  · exact ⟨h, by simp [setSliceBool, ht, hwt.pyLen, hn, bind, Except.bind, pure, Except.pure],
+      Rewrites.refl_empty h t _ hn⟩
+  · obtain ⟨f, hf⟩ := PBA.fml_ok hwt false
+    refine ⟨_, by simp [setSliceBool, ht, hwt.pyLen, hn, hf, bind, Except.bind, pure, Except.pure]; rfl, ?_⟩
+    exact applyParts_rewrites h t hwt f hf _ _ _ _ (fun _ _ _ => rfl) (fun _ _ _ => rfl)
+      (fun _ _ _ _ _ _ _ x t _ ht => truefalse_getLsbD v t ht)
+
+theorem setSlicePBA_spec (h : Heap) (p : PBA) (lo hi : Option Int) (t q : PBA)
+    (ht : slice p lo hi = .ok t) (hwt : WF h t) (hq : WF h q)
+    (hs : q.start = t.start) (he : q.stop = t.stop) (hd : Disjoint t q) :
+    ∃ h', setSlicePBA h p lo hi q = .ok h' ∧ Rewrites h h' t (fun k _ => opnd h t q k) := by
+  by_cases hn : t.n = 0
+  · exact ⟨h, by simp [setSlicePBA, ht, hwt.pyLen, hn, bind, Except.bind, pure, Except.pure],
+      Rewrites.refl_empty h t _ hn⟩
+  · obtain ⟨f, g, h', hf, hg, e, R⟩ := combinePBA_spec h t q hwt hq hs he hd (fun _ o => o) (fun _ o => o)
+      (fun _ _ _ _ => rfl)
+    refine ⟨h', ?_, R⟩
+    simp [setSlicePBA, ht, hwt.pyLen, hn, hf, hg, hs, he, bind, Except.bind]
+    exact e
+
+
+theorem packBits_length (l : List Bool) : (packBits l).length = (l.length + 7) / 8 := by simp [packBits]
+
+theorem packBits_getLsbD (l : List Bool) (i t : Nat) (ht : t < 8) :
+    ((packBits l).getD i 0).getLsbD t = l.getD (8 * i + t) false := by
+  simp only [packBits, List.getD_eq_getElem?_getD, List.getElem?_map]
+  by_cases hi : i < (l.length + 7) / 8
+  · simp only [List.getElem?_range hi, Option.map_some, Option.getD_some, pack_getLsbD, ht, decide_true,
+      Bool.true_and, List.getD_eq_getElem?_getD, List.getElem?_take, List.getElem?_drop, if_true]
+  · have h1 : (List.range ((l.length + 7) / 8))[i]? = none := by simp; omega
+    have h2 : l[8 * i + t]? = none := by simp; omega
+    simp [h1, h2]
+
+theorem fromBoolData_getLsbD (s : Nat) (vals : List Bool) (i t : Nat) (ht : t < 8) :
+    ((fromBoolData s vals).getD i 0).getLsbD t = (List.replicate s false ++ vals).getD (8 * i + t) false :=
+  packBits_getLsbD _ i t ht
+
+theorem setSliceArr_spec (h : Heap) (p : PBA) (lo hi : Option Int) (t : PBA)
+    (ht : slice p lo hi = .ok t) (hwt : WF h t) (vals : List Bool) (hv : vals.length = t.n) :
+    ∃ h', setSliceArr h p lo hi vals = .ok h' ∧ Rewrites h h' t (fun k _ => vals.getD (k - t.A) false) := by
+  by_cases hn : t.n = 0
+  · exact ⟨h, by simp [setSliceArr, ht, hwt.pyLen, hn, bind, Except.bind, pure, Except.pure],
+      Rewrites.refl_empty h t _ hn⟩
+  · obtain ⟨f, hf⟩ := PBA.fml_ok hwt false
+    have hst := hwt.stop_eq
+    have hwt' := hwt
+    obtain ⟨a1, a2, a3, a4, a5⟩ := hwt
+    have hvl : (fromBoolData t.start vals).length = t.len := by
+      simp only [fromBoolData, packBits_length, List.length_append, List.length_replicate, hv]; omega
+    have hbits := fromBoolData_getLsbD t.start vals
+    have hstop : ((t.start : Int) + (t.n : Int)) = t.stop := by rw [hst]; omega
+    have hb := fml_bounds _ _ _ _ _ f hf
+    simp only [setSliceArr, ht, hwt'.pyLen, bind, Except.bind, pure, Except.pure, hf]
+    simp only [hn, beq_iff_eq, if_false, hv, bne_self_eq_false, Bool.false_eq_true]
+    generalize fromBoolData t.start vals = vb at hvl hbits ⊢
+    have hg := fml_false_shape _ (fun i => vb.getD i 0) _ _ _ f hf
+    have e := combineParts_eq h t f
+      ⟨⟨f.first.arr.map (fun _ => unpack (vb.getD 0 0)), f.first.lo, f.first.hi⟩, f.mid,
+       ⟨f.last.arr.map (fun _ => unpack (vb.getD (t.len - 1) 0)), f.last.lo, f.last.hi⟩⟩
+      (fun _ i => vb.getD i 0) (fun _ o => o) (fun _ o => o) rfl (by simp) (by simp)
+    have hinit : initData 0 vb.length true (some (t.start : Int)) (some ((t.start : Int) + t.n)) =
+        .ok ⟨0, vb.length, t.start, (t.start : Int) + t.n, true⟩ := by
+      simp only [initData, checkStart, bind, Except.bind, pure, Except.pure]
+      rw [if_neg (by simp; omega)]
+      simp only [Int.toNat_natCast]
+      rw [if_neg (by simp; omega)]
+    rw [hinit]
+    simp only [hvl, hstop, hg]
+    refine ⟨_, e, ?_⟩
+    apply Rewrites.congr (F := fun k _ => (List.replicate t.start false ++ vals).getD (k - 8 * t.off) false)
+    · apply applyParts_rewrites' h t hwt' f hf
+      · intro c u x hu
+        obtain ⟨a, ha⟩ := Option.isSome_iff_exists.mp c
+        simp only [ha, Option.map_some, Option.getD_some, unpack_getD, hbits 0 u hu]
+        congr 1; omega
+      · intro c u x hu
+        obtain ⟨a, ha⟩ := Option.isSome_iff_exists.mp c
+        have := hb.2.2 c
+        simp only [ha, Option.map_some, Option.getD_some, unpack_getD, hbits (t.len - 1) u hu]
+        congr 1; omega
+      · intro hc hsz hfr a b hm i x u hi hu
+        simp only [hm, hbits (a + i) u hu]
+        congr 1; omega
+    · intro k x h1 h2
+      simp only [PBA.A] at h1 h2 ⊢
+      simp only [List.getD_eq_getElem?_getD]
+      rw [List.getElem?_append_right (by simp; omega)]
+      congr 2; simp; omega
+
+
 end Packed
 end HS
